@@ -92,12 +92,19 @@ var errScripted = errors.New("connection error (scripted)")
 
 // blockUntilClosedOrDeadline: a hung operation returns when the connection is
 // closed (interface contract) or when its deadline passes.
-func (c *verifConn) blockUntilClosedOrDeadline() {
+func (c *verifConn) blockUntilClosedOrDeadline(deadline time.Time) {
+	wait := time.Second
+	if verifHonourDeadlines && !deadline.IsZero() {
+		wait = time.Until(deadline) // the deadline the client armed for this very operation (tens of seconds)
+	}
 	select {
 	case <-c.closed:
-	case <-time.After(time.Second):
+	case <-time.After(wait):
 	}
 }
+
+// verifHonourDeadlines: a hung operation lasts until the deadline the client passed for it (instead of 1 s).
+var verifHonourDeadlines bool
 
 func (c *verifConn) SendChunk(chunk base.LogChunk, deadline time.Time) error {
 	c.mon.event()
@@ -112,7 +119,7 @@ func (c *verifConn) SendChunk(chunk base.LogChunk, deadline time.Time) error {
 	case 1:
 		return errScripted
 	case 2:
-		c.blockUntilClosedOrDeadline() // blocked mid-write
+		c.blockUntilClosedOrDeadline(deadline) // blocked mid-write
 		return errScripted
 	}
 	c.sentOK = append(c.sentOK, chunk.ID)
@@ -133,7 +140,7 @@ func (c *verifConn) ReadChunkAck(deadline time.Time) (string, error) {
 		return "", errScripted
 	}
 	if len(c.unacked) == 0 {
-		c.blockUntilClosedOrDeadline() // nothing outstanding: the upstream stays silent
+		c.blockUntilClosedOrDeadline(deadline) // nothing outstanding: the upstream stays silent
 		return "", errScripted
 	}
 	n := 3
@@ -144,7 +151,7 @@ func (c *verifConn) ReadChunkAck(deadline time.Time) (string, error) {
 	case 1:
 		return "", errScripted
 	case 2:
-		c.blockUntilClosedOrDeadline() // ACK never arrives
+		c.blockUntilClosedOrDeadline(deadline) // ACK never arrives
 		return "", errScripted
 	case 3:
 		return "unknown-id", nil
@@ -462,5 +469,27 @@ func VerifC01_ClientCustodyFullAckWindow() { verifClientScenario(true, 2+sym.Tie
 //verif:reach stopped delivered handed-back
 //verif:paths 400000
 func VerifC02_AcknowledgerEndRace() {
+	verifClientScenario(true, 2, 1+sym.Tier(), 1, 0)
+}
+
+// VerifC18_StopAbortsHungOperations: the client scenario with hung operations
+// that last as long as the deadline the client armed for them (a send blocked
+// mid-write to a peer that stopped reading, an ACK that never comes: tens of
+// seconds to minutes), not the scripted second: the stop request must abort
+// the operation in progress (closing the connection unblocks it), so the
+// client still stops at once instead of waiting the deadline out - and no
+// chunk is lost on the way.
+//
+//verif:preempt 0
+//verif:timers 30
+//verif:clock virtual
+//verif:native off
+//verif:delays 1
+//verif:thorough delays 2
+//verif:reach stopped handed-back
+//verif:paths 400000
+func VerifC18_StopAbortsHungOperations() {
+	verifHonourDeadlines = true
+	defer func() { verifHonourDeadlines = false }()
 	verifClientScenario(true, 2, 1+sym.Tier(), 1, 0)
 }
